@@ -475,12 +475,38 @@ def h_statics():
     return {"h.h": s}
 
 
+def h_floats():
+    """floating literals of every shape behind the number formatter (pdtoa): short, long mantissa,
+    two- and three-digit exponents of both signs, extremes, denormals, negative, float suffix --
+    as default arguments, published constants, macros and enum-free expressions"""
+    vals = ["0.1", "1.5e10", "2.5e-120", "1.25e200", "1e100", "1e-100", "1.7976931348623157e308",
+            "5e-324", "2.2250738585072014e-308", "-1e300", "1e30f", "3.4028235e38f", "1e-30f",
+            "123456789.125", "0.30000000000000004", "1e21", "1e-7", "6.02214076e23", "-2.5e-120",
+            "9.999999999999999e199", "1e101", "1e-101", "4.9406564584124654e-324", "0.0", "-0.0"]
+    s = "class Fl {\n__published:\n  Fl();\n"
+    for i, v in enumerate(vals):
+        t = "float" if v.endswith("f") else "double"
+        s += "  void d%d(%s x = %s);\n" % (i, t, v)
+    s += "  void many(double a = 2.5e-120, double b = 1.25e200, double c = 1.7976931348623157e308, double d = 5e-324);\n"
+    s += "  void mixed(int n, double a = 1e100, const char *t = \"x\", double b = 1e-100);\n"
+    s += "};\n"
+    for i, v in enumerate(vals):
+        s += "#define FLT_%d %s\n" % (i, v)
+    s += "#define FLT_EXPR (2.5e-120 * 2)\n#define FLT_SUM (1.25e200 + 1e100)\n"
+    s += "__begin_publish\n"
+    for i, v in enumerate(vals[:12]):
+        if not v.endswith("f"):
+            s += "double gf%d(double x = %s, double y = %s);\n" % (i, v, vals[(i + 3) % 10].rstrip("f"))
+    s += "__end_publish\n"
+    return {"h.h": s}
+
+
 HEADERS = [
     ("ovl_ptr", h_ovl_ptr), ("ovl_mixed", h_ovl_mixed), ("coerce", h_coerce),
     ("manifests", h_manifests), ("includes", h_includes), ("templates", h_templates),
     ("properties", h_properties), ("manyfn", lambda: h_many_functions(1500)),
     ("inherit", h_inherit), ("operators", h_operators), ("mix", h_mix),
-    ("foreign", h_foreign), ("homonyms", h_homonyms), ("statics", h_statics),
+    ("foreign", h_foreign), ("homonyms", h_homonyms), ("statics", h_statics), ("floats", h_floats),
     ("tiny", lambda: {"h.h": "class T {\n__published:\n  T();\n  int x;\n};\n"}),
 ]
 
@@ -924,6 +950,14 @@ def main():
     for s in scens:
         if os.path.realpath(s.cwd) != s.dir or s.cwd == s.dir:
             raise HarnessError("working directory of %s is not behind a symbolic link" % s.name)
+    # vacuity guard: three-digit exponents must really reach the outputs of every back-end
+    for be in ("c", "python", "pynative"):
+        fl = byname.get("i-floats-" + be)
+        if fl is not None:
+            n3 = len(re.findall(rb"\de[+-]?\d{3}\b", fl.ref["outs"]["oc"] + fl.ref["outs"]["od"]))
+            ck.extra["three_digit_exponents_in_floats_" + be] = n3
+            if n3 < 10:
+                raise HarnessError("floats scenario (%s): only %d three-digit exponents reach the output" % (be, n3))
     ss = byname.get("i-statics-pynative")
     if ss is not None:
         nstat = ss.ref["outs"]["oc"].count(b"Dtool_NewStaticProperty")
